@@ -1324,7 +1324,7 @@ def run(ctx, rep):
                                + "; ".join(rep.extra["mismatching_cases"][:5]), found)
     if not ok:
         vlib.broken_obligation(rep, "C06_table", f"{where}\n{outp[-1500:]}", found)
-    known = {k["signature"] for k in vlib.load_known() if k["property"] == "C06"}
+    known = {k.get("signature") for k in vlib.load_known() if k.get("property") == "C06" and k.get("status") == "known"}
     return tuple(sorted({v.sig for v in rep.violations if v.sig in known}))
 
 
